@@ -76,6 +76,14 @@ def install():
     def tmin(x, *a, **k):
         return x.min(*a, **k)
     torch.max, torch.min = tmax, tmin
+
+    def allclose(a, b, rtol=1e-05, atol=1e-08, equal_nan=False):
+        # documented contract of torch.allclose: every element satisfies |a - b| <= atol + rtol * |b|
+        return ((a - b).abs() <= atol + rtol * b.abs()).all()
+
+    def isclose(a, b, rtol=1e-05, atol=1e-08, equal_nan=False):
+        return (a - b).abs() <= atol + rtol * b.abs()
+    torch.allclose, torch.isclose = allclose, isclose
     torch.is_tensor = lambda x: isinstance(x, T.Tensor)
     torch.Size = T.Size
     torch.is_floating_point = lambda x: x.is_floating_point()
